@@ -45,7 +45,8 @@
 //!         | ok <order> <s> <hdr0> <frame-hex> [..] (STARTUP: map iteration order as entry indices)
 //!         | err <class ...> | panic
 //!         | len <payload size> <length field> (L, M) | skipped (L: not enough memory)
-//!         | e2e <ext> <asked>:<frame-hex> ... | skip-env <why> (N)
+//!         | e2e <ext> <asked>[#<frames seen for this call, when not 1>]:<frame-hex> ... (N)
+//!         | skip-env <why> (N: mock / session start, timeouts) | e2e-fail <why> (N: a call failed)
 use scylla_cql::Consistency;
 use scylla_cql::frame::frame_errors::{
     BatchSerializationError, BatchStatementSerializationError, CqlRequestSerializationError,
@@ -225,8 +226,13 @@ impl SerializableRequest for Blob {
 }
 /// sizes only; the component is calloc'ed and never written (the accepted side copies it once into the frame)
 fn run_big_case(what: &str, len: usize) -> String {
+    // Only the ACCEPTED big sizes copy the component into the frame (resident memory); from 2^31 on the length
+    // check refuses before any copy and the zero pages are never touched, so no guard applies there.
     let need_kib = (len as u64 / 1024) * 3;
-    if len > (1 << 28) && mem_available_kib() < need_kib + (4 << 20) {
+    if len > (1 << 28) && len < (1usize << 31) && mem_available_kib() < need_kib + (4 << 20) {
+        return "skipped".into();
+    }
+    if len > (1 << 28) && strict_overcommit() {
         return "skipped".into();
     }
     fn sizes<R: SerializableRequest>(r: &R) -> String {
@@ -278,7 +284,14 @@ fn run_big_case(what: &str, len: usize) -> String {
     }
 }
 
+/// vm.overcommit_memory = 2: a multi-GiB calloc that is never touched may still be refused and abort the process
+fn strict_overcommit() -> bool {
+    std::fs::read_to_string("/proc/sys/vm/overcommit_memory").map(|s| s.trim() == "2").unwrap_or(false)
+}
 fn run_blob_case(c: Option<Compression>, tr: bool, len: usize) -> String {
+    if len > (1 << 28) && strict_overcommit() {
+        return "skipped".into();
+    }
     match SerializedRequest::make(&Blob(len), c, tr) {
         Err(e) => err_class(&e),
         Ok(sr) => {
@@ -393,8 +406,10 @@ fn run_case_inner(case: &str) -> String {
         let rt = tokio::runtime::Builder::new_multi_thread().worker_threads(2).enable_all().build().unwrap();
         return match rt.block_on(e2e::run(serial)) {
             Ok(o) => o,
-            // nothing was observed: the scenario could not run (counted, capped by checks/c09.py)
-            Err(e) => format!("skip-env {}", e.replace(' ', "_")),
+            // the scenario could not run (mock / session start, timeouts): counted, capped by checks/c09.py
+            Err(e2e::E2eErr::Env(e)) => format!("skip-env {}", e.replace(' ', "_")),
+            // the implementation deviated from what the scenario allows: never ok
+            Err(e2e::E2eErr::Deviation(e)) => format!("e2e-fail {}", e.replace(' ', "_")),
         };
     }
     if f[0] == "C" {
